@@ -2,7 +2,7 @@
    construction of LalrRef.v, plus the items of the augmented rules S'_i -> S_i [EOI].
    Nothing here is trusted: Validator.check judges its output. Executable definitions only. *)
 From Coq Require Import List ZArith Bool Arith.
-From TM Require Import Gram.Cfg Gram.LalrRef Gram.Validator.
+From TM Require Import Gram.Cfg Gram.LalrRef Gram.Validator Gram.ValidatorLive.
 Import ListNotations.
 Local Open Scope Z_scope.
 
@@ -27,3 +27,8 @@ Definition gen_cert (g : grammar) (fuel : nat) : cert * list Z :=
 Definition validate (g : grammar) (m : Run.machine) (nstates : Z) (finals : list Z) (fuel : nat) : Z :=
   let '(c, _) := gen_cert g fuel in
   check_report g m nstates finals (nullable_set g) (first_sets g) c.
+
+(* the second validator (correct-prefix property) on the same certificate, with the untrusted rank hint *)
+Definition validate_live (g : grammar) (nstates : Z) (fuel : nat) : bool :=
+  let '(c, _) := gen_cert g fuel in
+  check_live g nstates c (live_ranks g c).
